@@ -1,6 +1,7 @@
 """C13 - instantiations are independent of each other and of parameter spelling (Engine F)."""
 from .. import rules_alias as RA
 from .. import rules_inst as RI
+from .. import rules_pybind as RP
 from .. import rules_flow as RF
 from .. import rules_grammar as RG
 from .. import rules_xml as RX
@@ -47,4 +48,6 @@ def run(ctx, rep):
     # P8: a parameter named like the reserved word (`ThisType`) is still a parameter: reserved-word handling comes after the parameter tests (= C02/S6)
     rep.run(RI.rule_this, ctx, rep, "P8")
     rep.run(RI.rule_instantiation_depends_on_itself_only, ctx, rep, "P9")
+    # P10: the pybind block of one instantiation does not depend on the instantiations wrapped before it
+    rep.run(RP.rule_class_block_independent_of_earlier_classes, ctx, rep, "P10")
     rep.run(RF.rule_locals_defined, ctx, rep, "U1", packages=("gtwrap/template_instantiator",), min_functions=3)
